@@ -178,6 +178,34 @@ func checkDeltaEffects(p *core.Prog, r *core.Report, rule string, fnName string,
 }) {
 	fn := p.Func(pkgStore, fnName)
 	r.Touch(core.FuncName(fn))
+	// the per-delta interpretation may live in a helper that the function calls for each delta (body of the loop
+	// extracted): analyse the helper as one iteration
+	kvF, sizeF := p.Field(pkgStore, "baseStore", "kv"), p.Field(pkgStore, "baseStore", "totalSizeBytes")
+	if len(core.FieldWritesIn(fn, kvF))+len(core.FieldWritesIn(fn, sizeF)) == 0 {
+		var helper *ssa.Function
+		for _, m := range core.Family(fn, 1) {
+			if m == fn || m.Parent() != nil || len(core.FieldWritesIn(m, kvF))+len(core.FieldWritesIn(m, sizeF)) == 0 {
+				continue
+			}
+			takesDelta := false
+			for _, prm := range m.Params {
+				if isStoreDeltaPtr(p, prm.Type()) {
+					takesDelta = true
+				}
+			}
+			if takesDelta {
+				if helper != nil {
+					helper = nil
+					break
+				}
+				helper = m
+			}
+		}
+		if helper != nil {
+			fn, perIter = helper, false
+			r.Touch(core.FuncName(fn))
+		}
+	}
 	paths := summarizeDeltaInterp(p, fn, perIter)
 	for _, k := range []string{"CREATE", "UPDATE", "DELETE"} {
 		construct := fnName + "/" + k
